@@ -16,7 +16,7 @@ func mainLoop(L *LState, baseframe *callFrame) {
 
 	L.currentFrame = L.stack.Last()
 	if L.currentFrame.Fn.IsG {
-		callGFunction(L, false)
+		callGFunction(L, false, baseframe != nil)
 		return
 	}
 
@@ -40,7 +40,7 @@ func mainLoopWithContext(L *LState, baseframe *callFrame) {
 
 	L.currentFrame = L.stack.Last()
 	if L.currentFrame.Fn.IsG {
-		callGFunction(L, false)
+		callGFunction(L, false, baseframe != nil)
 		return
 	}
 
@@ -102,9 +102,14 @@ func switchToParentThread(L *LState, nargs int, haserror bool, kill bool) {
 	}
 }
 
-func callGFunction(L *LState, tailcall bool) bool {
+// nested reports that the running loop was entered from a Go function of this thread (pcall, a
+// metamethod, iterator or library callback, the host API): such a loop cannot be suspended.
+func callGFunction(L *LState, tailcall bool, nested bool) bool {
 	frame := L.currentFrame
 	gfnret := frame.Fn.GFunction(L)
+	if gfnret < 0 && nested && L.Parent != nil {
+		L.RaiseError("attempt to yield across metamethod/C-call boundary")
+	}
 	if tailcall && gfnret < 0 {
 		// `return coroutine.yield(...)`: suspend like an ordinary call and keep the calling frame.
 		// The values of the next resume become the results of this call (at frame.Base) and the
@@ -593,7 +598,7 @@ func init() {
 				callable, meta = L.metaCall(lv)
 			}
 			// +inline-call L.pushCallFrame callFrame{Fn:callable,Pc:0,Base:RA,LocalBase:RA+1,ReturnBase:RA,NArgs:nargs,NRet:nret,Parent:cf,TailCall:0} lv meta
-			if callable.IsG && callGFunction(L, false) {
+			if callable.IsG && callGFunction(L, false, baseframe != nil) {
 				return 1
 			}
 			return 0
@@ -635,7 +640,7 @@ func init() {
 					Parent:     cf,
 					TailCall:   0,
 				}, lv, meta)
-				if callGFunction(L, true) {
+				if callGFunction(L, true, baseframe != nil) {
 					return 1
 				}
 				if L.currentFrame == nil || L.currentFrame.Fn.IsG || luaframe == baseframe {
